@@ -208,7 +208,7 @@ def _one_chunk(ctx, idx, chunk, label, specs_file, infos_by_sid, monitor, limit_
     return res, stats, hangs
 
 
-def run_rx(ctx, specs, infos, behs, label, monitor="Mon_Receiver", chunk_size=400, workers=10, limit_ms=1500):
+def run_rx(ctx, specs, infos, behs, label, monitor="Mon_Receiver", chunk_size=400, workers=10, limit_ms=3000):
     build_harness()
     for i, b in enumerate(behs):
         b["beh"] = i
